@@ -8,6 +8,12 @@
       dr_summarize_section_or_task-> [summarize]
       the dr_*__ entry points     -> [record]: every closed section / task is accumulated from
                                      its children, then handed to the contraction policy.
+    Source: src/profiler/gen_stat.c, src/profiler/dr_dump.c (the report)
+      dr_calc_inner_delay (total_t_1)              -> [stat_work]
+      dr_calc_edges + dr_pi_dag_enum_edges, summed
+      over the worker matrix                       -> [stat_edges]
+    The library exists in two variants with respect to finding C18-stat-edges-lost (flags [oc],
+    [fe]; notes/C18.md); tools/props/c18.py probes which one it is linked against.
 
     [info] keeps the fields of dr_dag_node_info that the reported totals are made of
     (t_1, t_inf, logical node counts, logical edge counts) and the fields that drive the
